@@ -192,7 +192,10 @@ def module_case(task):
         e = float((np.abs(res).max(axis=(0, 1)) / scale).max())
         out['checks'] += 1
         out['maxres']['Einstein'] = e
-        tol = 1e-6
+        # the reference derivatives are good to ~1e-9 (largest legitimate
+        # residual on the unchanged tree: 1.3e-9, Schwarzschild); a constant
+        # rounded to 7 digits in a closed form leaves 1e-7
+        tol = 2e-8
         if not e < tol:
             k = np.unravel_index(np.argmax(np.abs(res).max(axis=(0, 1))
                                            / scale), X.shape)
